@@ -222,6 +222,20 @@ DeltasOK(fs, last) == fs = <<>> \/ (Head(fs).id > last /\ DeltasOK(Tail(fs), Hea
 FieldsAscending == DeltasOK(Logical.xs, 0)
 
 \* message headers: one vector (emitted from the initial state) with every type x name x sequence id
+\* A map is unordered on the wire: the same content with the entries of every map in the opposite order is another
+\* conformant encoding of it (one that no encoder with a fixed iteration order ever produces)
+RECURSIVE Rev(_)
+RevPairs(xs) == [i \in 1..Len(xs) |-> LET n == Len(xs) \div 2
+                                           q == n + 1 - ((i + 1) \div 2) IN xs[2 * (q - 1) + (IF i % 2 = 1 THEN 1 ELSE 2)]]
+Rev(x) == CASE x.ty = "MAP" -> [x EXCEPT !.xs = RevPairs([i \in 1..Len(x.xs) |-> Rev(x.xs[i])])]
+            [] x.ty \in {"LIST", "SET"} -> [x EXCEPT !.xs = [i \in 1..Len(x.xs) |-> Rev(x.xs[i])]]
+            [] x.ty = "STRUCT" -> [x EXCEPT !.xs = [i \in 1..Len(x.xs) |-> [x.xs[i] EXCEPT !.val = Rev(x.xs[i].val)]]]
+            [] OTHER -> x
+\* reversing twice is the identity, and the reversed encoding has the same items in another order (same length)
+RevInvolution == layout # <<>> => Rev(Rev(Logical)) = Logical
+RevSameLength == layout # <<>> => /\ Len(Bin(Spec1, Rev(Logical))) = Len(Bin(Spec1, Logical))
+                                  /\ Len(Comp(TRUE, FALSE, Rev(Logical))) = Len(Comp(TRUE, FALSE, Logical))
+
 MessageCases ==
   {[mt |-> mt, name |-> nm, seq |-> sq,
     bin |-> BinMessage(TRUE, TRUE, mt, nm, sq), binasis |-> BinMessage(TRUE, FALSE, mt, nm, sq),
@@ -235,6 +249,7 @@ EmitVector == (Emit /\ layout # <<>>) =>
                  bin |-> Bin(Spec1, Logical), binasis |-> Bin(AsIs1, Logical),
                  comp |-> Comp(TRUE, FALSE, Logical), compasis |-> Comp(FALSE, FALSE, Logical),
                  complong |-> Comp(TRUE, TRUE, Logical), complongasis |-> Comp(FALSE, TRUE, Logical),
+                 binrevasis |-> Bin(AsIs1, Rev(Logical)), comprevasis |-> Comp(FALSE, FALSE, Rev(Logical)),
                  \* the dialect of the Writer implementations driven directly (the caller names the field type, so
                  \* the enum deviation of Marshal does not arise there)
                  binasisw |-> Bin([codes |-> FALSE, stop |-> FALSE, enum |-> TRUE], Logical),
